@@ -10,6 +10,7 @@
 (*          of the base mesh at kappa = id (fixed point, unit 1e-8 of the gross scale, harness/quant.py).       *)
 (*  "call2": one getB/getH call with two different meshes against the two single calls (Bj/Hj joint, Bs/Hs).    *)
 (*  "mode": what check mode "warn" / "raise" reported for a mesh.                                               *)
+(*  "life": a history of one object built without normalisation: use / checks, reorient_faces(), use again.    *)
 (* Verdict(e) = <<property, clause, context>>; property "C16" for failures at the lattice unit 1 m, "C12" when  *)
 (* the lattice unit differs from 1 m (the same abstract mesh is judged at every scale), "C06" for the two-mesh  *)
 (* call, "-" for behaviour beyond the property, "machinery" if the harness logged an instance whose premise is  *)
@@ -128,7 +129,43 @@ ModeVerdict(e) ==
      ELSE IF e.mode = "raise" /\ e.raised # first THEN <<"-", "mode_raise", <<e.kind, e.raised, first>>>>
      ELSE Ok
 
+\* ---------------------------------------------------------------- history of one object: use, then normalise, then use
+\* e.steps[k] = what was observed after the k-th operation of the history on an object built with reorient_faces = skip:
+\* faces (obj.faces), faces_mesh (the windings of the array obj.mesh the field is computed from), status_reoriented, the
+\* value a check returned, and for a use the fields at the declared observers.  After reorient_faces() every observation
+\* is judged as for an object normalised at construction.
+LifeVerdict(e) ==
+  LET V == Destretch(e.stretch, VSeq(e.verts_in))
+      F == VSeq(e.faces_in)
+      P == Prop(e)
+      b == e.base
+      obs == VSeq(e.obs)
+      n == Len(e.steps)
+      After(k) == \E j \in 1..k : e.steps[j].op = "reorient"
+      Truth(op) == IF op = "check_open" THEN Open(F) ELSE IF op = "check_disconnected" THEN Disconnected(F) ELSE SelfIntersecting(V, F)
+      StepVerdict(k) ==
+        LET s == e.steps[k]  G == VSeq(s.faces)  M == VSeq(s.faces_mesh) IN
+        IF ~SameFaceSets(F, G) THEN <<P, "faces_changed", <<"life", "faces">>>>
+        ELSE IF ~After(k) /\ G # F THEN <<"-", "faces_changed_without_reorient", <<"life", s.op>>>>
+        ELSE IF s.reoriented # After(k) THEN <<"-", "status_reoriented", <<"life", s.op>>>>
+        ELSE IF After(k) /\ ~Outward(V, G) THEN <<P, "not_outward", <<"life", "faces">>>>
+        ELSE IF After(k) /\ s.op = "use" /\ (~SameFaceSets(F, M) \/ ~Outward(V, M)) THEN <<P, "not_outward", <<"life", "mesh_array">>>>
+        ELSE IF s.op \in LifeChecks /\ s.ret # Truth(s.op) THEN <<P, "status_after_use", <<"life", s.op>>>>
+        ELSE IF s.op = "use" /\ After(k) /\ ~(AllFin(s.B.fin) /\ AllFin(s.H.fin)) THEN <<"C15", "field_nonfinite", <<b>>>>
+        ELSE IF s.op = "use" /\ After(k) /\ (BadRows(s.B.q, e.B0.q) # {} \/ BadRows(s.H.q, e.H0.q) # {})
+             THEN <<P, "field_variant_mismatch", <<"life", IF BadRows(s.H.q, e.H0.q) # {} THEN "BH" ELSE "B">>>>
+        ELSE Ok
+      bad == {k \in 1..n : StepVerdict(k)[1] # "ok"}
+  IN IF ~StretchExact(e.stretch, VSeq(e.verts_in)) \/ ~WellFormed(V, F) THEN <<"machinery", "premise_wellformed", <<"life">>>>
+     ELSE IF ~(b \in BaseNames) \/ Open(F) \/ Disconnected(F) \/ SelfIntersecting(V, F) \/ ~SameBody(V, F, BaseMesh(b).v, BaseMesh(b).f)
+          THEN <<"machinery", "premise_samebody", <<"life">>>>
+     ELSE IF ~({obs[i] : i \in 1..Len(obs)} = StretchSet(e.stretch, ObsIn(b) \cup ObsOut(b)) /\ e.den = ObsDen) THEN <<"machinery", "premise_observers", <<"life">>>>
+     ELSE IF ~(\A k \in 1..n : e.steps[k].op \in LifeOps) \/ ~AllFin(e.B0.fin) \/ ~AllFin(e.H0.fin) THEN <<"machinery", "premise_history", <<"life">>>>
+     ELSE IF bad = {} THEN Ok
+     ELSE StepVerdict(CHOOSE k \in bad : \A j \in bad : k <= j)
+
 Verdict(e) == IF e.type = "mesh" THEN MeshVerdict(e)
+              ELSE IF e.type = "life" THEN LifeVerdict(e)
               ELSE IF e.type = "call2" THEN Call2Verdict(e)
               ELSE IF e.type = "mode" THEN ModeVerdict(e)
               ELSE <<"machinery", "unknown_event_type", <<>>>>
